@@ -139,6 +139,8 @@ def check_field(I, chk, cfg, struct, path, term, exp, outcome, flag_leaves):
         src = sources(term)
         if not src:
             return bad("communication state has no bit source")
+        if not all(isinstance(s[1], int) and isinstance(s[2], int) for s in src):
+            return bad("communication state read from a position that depends on the payload (%r)" % (src[:1],))
         lo = min(s[1] for s in src)
         hi = max(s[1] + s[2] for s in src)
         # exact sub-layout is C16's; here: inside the message and not overlapping other fields
